@@ -91,6 +91,8 @@ pub(crate) fn thread_local_alloc_at_least(
     len: AlignedSize,
     chunk_count_in_bump: usize,
 ) -> ChunkPart {
+    #[cfg(feature = "verif_hooks")]
+    crate::verif_hooks::sched_point(crate::verif_hooks::Site::ChunkCacheAlloc);
     let chunk = match PER_THREAD_ALLOCATOR.with_borrow_mut(|allocator| allocator.fetch(len)) {
         Some(chunk) => chunk,
         _ => {
@@ -107,6 +109,8 @@ pub(crate) fn thread_local_alloc_at_least(
 #[allow(clippy::if_same_then_else)]
 #[inline]
 pub(crate) fn thread_local_release(chunk: ChunkPart) {
+    #[cfg(feature = "verif_hooks")]
+    crate::verif_hooks::sched_point(crate::verif_hooks::Site::ChunkCacheRelease);
     if chunk.is_full() {
         // Chunk part is the full chunk. Better return it to malloc.
         drop(chunk)
